@@ -73,6 +73,8 @@ def enabled_ops(state):
             for idx in range(len(lst)):
                 ops.append(('replace', e, m, idx))
                 ops.append(('replace', e, m, idx, 'result', True))
+                if idx == len(lst) - 1:
+                    ops.append(('replace', e, m, -1, 'error', False))          # the last patch, addressed from the end
                 if e == 0:
                     ops.append(('replace', e, m, idx, 'error', False))
                     ops.append(('replace', e, m, idx, 'callback', True))
